@@ -92,7 +92,7 @@ def _arch_stubs():
 reg('C03', 'harness.arch', design_ref='6/C03',
     bounds={'quick': 'archives dict, null, file(pickle), file(json), dir(pickle), dir(json), dir(fast), sqltable(:memory:), sqltable(db file): symbolic write prefix of <= 2 writes/deletes, then every operation of the 24-operation mapping alphabet with symbolic arguments (stores <= 3 entries); for persistent archives also 1 write + 2 operations (first from the 8 mutating ones); sibling archive isolation after every step; alias witnesses',
             'thorough': 'prefix <= 3 then 1 operation; 1 write then every pair of operations'},
-    outside="serialized=False (source-text) archives, klepto._pickle internals (compression, memmap), HDF and sqlalchemy classes; real json turning int keys into str; dir/sql keys outside the concrete universes {'a','b',1,('t',2)}; more than 3 stored entries",
+    outside="serialized=False (source-text) archives, klepto._pickle internals (compression, memmap), HDF and sqlalchemy classes; real json turning int keys into str; dir/sql keys outside the concrete universes {'a','c-d',1,('t',2)} (dir) and {'a','b',1} (sql); more than 3 stored entries",
     stubs=[], assumptions=['dict/null/file archives: keys and values are opaque atoms; dir/sql archives: keys from a concrete universe behind a symbolic selector, values atoms',
                             'distinct dir keys are assumed to have distinct file names except in the alias scenario (which checks exactly that on witnesses)'],
     expect_labels=['C03:contents', 'C03:result', 'C03:exception', 'C03:isolation', 'C03:copy-equal', 'C03:equality'])
